@@ -160,7 +160,7 @@ int main(int argc, char **argv) {
   c.rule =
       "all instances with 1..3 sources and 1..3 sinks (thorough: up to 4x3 / 3x4 on a reduced value set), positions in {0,1,3} (thorough {0,1,2,4}), unsorted with "
       "duplicates (plus 3x4 on {0,2,4,5} with quantities 1..2), supplies and demands in {0..3} (zeros included), total supply <= total demand, plus the over-full ones after balanceDemand(); "
-      "plus the same shapes scaled/shifted to positions ~1e8, and small shapes with quantities multiplied by 1e9 (totals beyond 2^31); after every solve a user-supplied invalid plan is rejected by checkSolutionValid and solve() is asked again on the same object; oracle: plan validity by direct sums, cost equal to the non-crossing-matching DP optimum, "
+      "plus long rows of 8..40 sinks with one or two sources in the first, middle and last gaps; plus the same shapes scaled/shifted to positions ~1e8, and small shapes with quantities multiplied by 1e9 (totals beyond 2^31); after every solve a user-supplied invalid plan is rejected by checkSolutionValid and solve() is asked again on the same object; oracle: plan validity by direct sums, cost equal to the non-crossing-matching DP optimum, "
       "assign(): one in-range positive-demand sink per source and the unsplit-source rule; built with ASan/UBSan/libstdc++ assertions so any "
       "out-of-bounds access kills the worker; non-trivial = a source is split or a zero supply/demand is present";
   c.bounds = th ? "<=4x3, values {0..3}" : "<=3x3";
@@ -214,6 +214,32 @@ int main(int argc, char **argv) {
           }
         }
     }
+    // long rows: 17..40 sinks (a search over the sinks that is right on three or four of them can be wrong on eighteen), one or
+    // two sources in the first, middle and last gaps, nearer to the left sink / in the middle / nearer to the right one
+    for (int M : {8, 17, 18, 19, 24, 40})
+      for (int dpat = 0; dpat < 3; ++dpat) {
+        std::vector<long long> v, d;
+        for (int j = 0; j < M; ++j) { v.push_back(10LL * j); d.push_back(dpat == 0 ? 1 : (dpat == 1 ? 1 + j % 2 : (j % 3 == 1 ? 0 : 2))); }
+        std::vector<long long> srcPos;
+        for (int g : {0, M / 2, M - 2})
+          for (int off : {1, 5, 9}) srcPos.push_back(10LL * g + off);
+        srcPos.push_back(10LL * (M - 2) + 4);
+        srcPos.push_back(10LL * (M - 2) + 6);
+        srcPos.push_back(10LL * (M - 1) + 3);  // beyond the last sink
+        srcPos.push_back(-4);                   // before the first sink
+        for (size_t a = 0; a < srcPos.size(); ++a)
+          for (int sa = 1; sa <= 2; ++sa) {
+            Inst in; in.scale = 1; in.shift = 0; in.balance = 0;
+            in.v = v; in.d = d; in.u = {srcPos[a]}; in.s = {sa};
+            f(in);
+            for (size_t b = a; b < srcPos.size(); ++b)
+              for (int sb = 1; sb <= 2; ++sb) {
+                Inst in2 = in;
+                in2.u.push_back(srcPos[b]); in2.s.push_back(sb);
+                f(in2);
+              }
+          }
+      }
     // scaled copies as produced by the rough legalizer's 1e8 factor
     gen(2, 2, {0, 1, 3}, 3, 33333333, 0, false);
     gen(3, 2, {0, 1, 3}, 2, 33333333, 5, false);
